@@ -101,3 +101,52 @@ Proof.
               specialize (Gx None). simpl in Gx. rewrite fall_none_fget in Gx by auto. discriminate.
            ++ exists tn. auto.
 Qed.
+
+(* repaired trie_insert: every node of the result is a fresh blank node or keeps the info (id included) it had *)
+Lemma ins_all : forall fx (P : ninfo -> Prop), f_split fx = true -> forall sz n, size_t n <= sz ->
+  forall k hdr nid n' p nid', (forall x, nid <= x -> P (fresh_info x)) ->
+  all_t (fun i _ => P i) n -> ins_t fx n k hdr nid = (n', p, nid') -> all_t (fun i _ => P i) n'.
+Proof.
+  intros fx P Hfx. induction sz; intros n Hsz k hdr nid n' p nid' HF Hall H.
+  { destruct n; simpl in Hsz; lia. }
+  destruct n as [i seg f]. cbn [ins_t] in H. cbn [all_t] in Hall. destruct Hall as [Hi Hf].
+  assert (SPL : forall sc jx x, P (t_info x) -> all_f (fun i _ => P i) (t_ch x) ->
+            all_t (fun i _ => P i) (match split fx i seg f sc nid with TN i1 s1 f1 => TN i1 s1 (new_child f1 jx x) end)).
+  { intros sc jx x Px Fx. unfold split. rewrite Hfx. cbn [all_t]. split; [apply HF; lia|].
+    apply all_f_new_child.
+    - apply all_f_new_child; [exact I|]. cbn [all_t]. auto.
+    - destruct x. cbn [all_t]. auto. }
+  destruct (strip seg k 0) eqn:St.
+  - match type of H with context [if ?b then _ else _] => destruct b end.
+    + pose proof (SPL sc (c2i 0) (TN (fresh_info (S nid)) [] FNil)) as X.
+      destruct (split fx i seg f sc nid) as [i1 s1 f1]. inversion H; subst. apply X; [apply HF; simpl; lia | exact I].
+    + inversion H; subst. cbn [all_t]. auto.
+  - pose proof (SPL sc (c2i c) (TN (fresh_info (S nid)) k' FNil)) as X.
+    destruct (split fx i seg f sc nid) as [i1 s1 f1]. inversion H; subst. apply X; [apply HF; simpl; lia | exact I].
+  - rewrite ins_f_fget in H. destruct (fget f (c2i c)) as [t|] eqn:G.
+    + destruct (ins_t fx t k' false nid) as [[t' p0] nid0] eqn:I0. inversion H; subst n' p nid'; clear H.
+      assert (Hst : size_t t <= sz). { apply size_fget in G. simpl in Hsz. lia. }
+      cbn [all_t]. split; auto. apply all_f_fset; auto.
+      eapply IHsz; eauto. eapply all_f_fget; eauto.
+    + assert (NEW : forall nid0, nid <= nid0 -> all_t (fun i _ => P i) (TN i seg (new_child f (c2i c) (TN (fresh_info nid0) k' FNil)))).
+      { intros. cbn [all_t]. split; auto. apply all_f_new_child; auto. cbn [all_t]. split; [apply HF; auto | exact I]. }
+      destruct hdr.
+      * inversion H; subst. apply NEW. lia.
+      * destruct (n_val i); simpl in H.
+        { inversion H; subst. apply NEW. lia. }
+        destruct (n_nots i); simpl in H.
+        2:{ inversion H; subst. apply NEW. lia. }
+        destruct (flen f =? 0).
+        2:{ inversion H; subst. apply NEW. lia. }
+        inversion H; subst. cbn [all_t]. auto.
+Qed.
+
+(* update of the node at a path: the other nodes keep their property *)
+Lemma all_upd_at : forall (P : ninfo -> Prop) p n g tn, get_at n p = Some tn -> (P (t_info tn) -> P (g (t_info tn))) ->
+  all_t (fun i _ => P i) n -> all_t (fun i _ => P i) (upd_t n p g).
+Proof.
+  induction p; intros n g tn G Hg Hall; destruct n as [i s f]; simpl in G; cbn [upd_t all_t] in *; destruct Hall as [Hi Hf].
+  - inversion G; subst. simpl in Hg. auto.
+  - split; auto. rewrite upd_f_fget. destruct (fget f a) as [c|] eqn:F; [|discriminate].
+    apply all_f_fset; auto. eapply IHp; eauto. eapply all_f_fget; eauto.
+Qed.
